@@ -366,3 +366,26 @@ def copies_all_items(stmt, src: str, dst: str) -> bool:
         k, v = (A.norm(e) for e in stmt.target.elts)
         return any(isinstance(x, ast.Assign) and A.norm(x.targets[0]) == f"{dst}[{k}]" and A.norm(x.value) == v for x in stmt.body)
     return False
+
+
+def in_tail_position(loop, stmt) -> bool:
+    """Finishing `stmt` normally ends this iteration of `loop`: it is the last statement of its block, and so is every enclosing
+    compound statement up to the loop body (try bodies / handlers / else blocks count: a finally still runs, then the loop goes on)."""
+    def find(block):
+        for i, s in enumerate(block):
+            last = i == len(block) - 1
+            if s is stmt:
+                return last
+            subs = []
+            for fld in ("body", "orelse"):
+                sub = getattr(s, fld, None)
+                if isinstance(sub, list) and sub and isinstance(sub[0], ast.stmt) and not isinstance(s, (ast.FunctionDef, ast.AsyncFunctionDef, ast.ClassDef, ast.For, ast.AsyncFor, ast.While)):
+                    subs.append(sub)
+            if isinstance(s, ast.Try):
+                subs += [h.body for h in s.handlers]
+            for sub in subs:
+                r = find(sub)
+                if r is not None:
+                    return r and last
+        return None
+    return bool(find(loop.body))
